@@ -116,3 +116,30 @@ def fail_atomic_grouped(P, entries, sums, exempt, under_map=None):
             g['ffs'].add(ff)
             g['whys'].extend(whys)
     return groups, sorted(set(used))
+
+
+def fail_atomic_paths(P, entries, path_rx, what, exempt_writers=None):
+    """FAIL-ATOMIC restricted to the state paths matching path_rx: over the given entry operations no such path is written with an
+    error return still reachable afterwards. Returns a rule function."""
+    def f(P_):
+        r = Res()
+        ents = [e for e in entries if P_.has_fn(e)]
+        if not ents:
+            from .facts import AnchorMissing
+            raise AnchorMissing('none of %s found' % entries)
+        sums, _fa = run_entries(P_, ents)
+        prx = re.compile(path_rx)
+        seen = set()
+        for e in ents:
+            mods = mod_paths(P_, sums[e], 1)
+            r.site('%s: %d state path(s) written, %d matching /%s/' % (e, len(mods), sum(1 for m in mods if prx.search(m)), path_rx))
+            for (path, w, ff), whys in sorted(dirty_report(P_, sums[e], 1).items()):
+                if not prx.search(path) or (path, w) in seen:
+                    continue
+                if exempt_writers and re.search(exempt_writers, w):
+                    continue
+                seen.add((path, w))
+                r.bad('path=%s|writer=%s' % (path, w), '%s: `%s` is written in `%s` and `%s` can still fail afterwards (%s)'
+                      % (what, path, w, ff, sorted(set(whys))[0]), where=sorted(set(whys))[:3])
+        return r
+    return f
